@@ -151,6 +151,11 @@ func (s *jwtSigner) Hash() []byte {
 	jwk := s.jwk
 	s.mut.RUnlock()
 
+	return hashOf(jwk, s.iss)
+}
+
+// hashOf identifies a state of the signer: the active key and the issuer name.
+func hashOf(jwk jose.JSONWebKey, iss string) []byte {
 	// the thumbprint stands for the key material: a key store reloaded with another
 	// key under the same key id results in another hash
 	thumbprint, _ := jwk.Thumbprint(crypto.SHA256)
@@ -158,13 +163,24 @@ func (s *jwtSigner) Hash() []byte {
 	hash := sha256.New()
 	hashx.WriteString(hash, jwk.KeyID)
 	hashx.WriteString(hash, jwk.Algorithm)
-	hashx.WriteString(hash, s.iss)
+	hashx.WriteString(hash, iss)
 	hashx.WriteBytes(hash, thumbprint)
 
 	return hash.Sum(nil)
 }
 
 func (s *jwtSigner) Sign(sub string, ttl time.Duration, customClaims map[string]any) (string, error) {
+	rawJwt, _, err := s.signAndHash(sub, ttl, customClaims)
+
+	return rawJwt, err
+}
+
+// signAndHash signs like Sign and returns, together with the token, the hash (see Hash) of the
+// very signer state the token has been created with. The key store may be reloaded at any time,
+// so a separate call of Hash may already describe another key.
+func (s *jwtSigner) signAndHash(
+	sub string, ttl time.Duration, customClaims map[string]any,
+) (string, []byte, error) {
 	s.mut.RLock()
 	jwk := s.jwk
 	key := s.key
@@ -177,7 +193,7 @@ func (s *jwtSigner) Sign(sub string, ttl time.Duration, customClaims map[string]
 			WithHeader("kid", jwk.KeyID).
 			WithHeader("alg", jwk.Algorithm))
 	if err != nil {
-		return "", errorchain.NewWithMessage(heimdall.ErrInternal, "failed to create JWT signer").CausedBy(err)
+		return "", nil, errorchain.NewWithMessage(heimdall.ErrInternal, "failed to create JWT signer").CausedBy(err)
 	}
 
 	claims := make(map[string]any)
@@ -196,10 +212,10 @@ func (s *jwtSigner) Sign(sub string, ttl time.Duration, customClaims map[string]
 
 	rawJwt, err := builder.Serialize()
 	if err != nil {
-		return "", errorchain.NewWithMessage(heimdall.ErrInternal, "failed to sign claims").CausedBy(err)
+		return "", nil, errorchain.NewWithMessage(heimdall.ErrInternal, "failed to sign claims").CausedBy(err)
 	}
 
-	return rawJwt, nil
+	return rawJwt, hashOf(jwk, s.iss), nil
 }
 
 func (s *jwtSigner) Keys() []jose.JSONWebKey {
